@@ -86,7 +86,9 @@ CLAIMS = {
              'objects) -> pack format (-> nested pack formats) -> channel format of the reference graph, elements in path '
              'order; when no reference list holds an element twice no route is returned twice; the result does not depend '
              'on spare fuel. Shared sub-graphs and empty branches are covered by the quantification. Equality and hashes of '
-             'route objects are checked on libadm by the run; termination on acyclic graphs rests on C06.',
+             'route objects are checked on libadm by the run. Termination: the traversal returns within its fuel on every '
+             'state reached by the modelled calls, copies included, and on every typed state whose object and pack-format '
+             'graphs are acyclic (C18_returns_on_every_reached_document, Heap/Terminate.v).',
         design='8 C18'),
     'C03': dict(
         technique='Rocq proof of the ownership invariant over every history of all modelled API calls, Document::deepCopy '
@@ -226,8 +228,12 @@ CLAIMS = {
              'model are acyclic; the call that would close a cycle returns the same state and the cycle exception; the '
              'recursive guard is sound for every fuel and terminates on acyclic states. The model (Heap/Exec.v) interprets '
              'the add/remove plans regenerated from src/document.cpp and is tied to libadm by comparing full snapshots '
-             'after every call of generated histories; a DFS on libadm\'s own snapshots is the oracle. Parsed files and '
-             'termination of Document::add / route tracing are covered by C07/C18 work, not yet by theorems here.',
+             'after every call of generated histories; a DFS on libadm\'s own snapshots is the oracle. The "consequently" '
+             'clause is proved too: acyclicity is carried through the extended calls, copies included (deepCopy edges are '
+             'images of edges, Heap/CopyInv.v); the model\'s recursive Document::add never exhausts its fuel (Heap/Fuel.v: '
+             'two calls per element without parent, one more for a track format whose stream format is already attached) and '
+             'the route tracer returns on every reached document (Heap/Terminate.v: a cycle of tracer steps would be a cycle '
+             'of object or pack-format references). Parsed files are covered by the C07/C08 runs.',
         design='8 C06'),
     'C12': dict(
         technique='Rocq proof of the stream/track synchronisation invariant over the heap model (partial for failing link '
